@@ -48,6 +48,145 @@ def random_supported_circuit(rng, n_inputs=None, n_gates=None):
             'users': list(users.items()), 'blocks': []}
 
 
+COMPLEMENT = {'AND': 'NAND', 'NAND': 'AND', 'OR': 'NOR', 'NOR': 'OR', 'XOR': 'NXOR', 'NXOR': 'XOR',
+              'GT': 'LEQ', 'LEQ': 'GT', 'LT': 'GEQ', 'GEQ': 'LT'}
+
+
+def negated_twin_circuit(rng):
+    """two outputs F and N with N = NOT F, each computed by its own private gates (the second cone is a
+    relabelled copy of the first whose top gate has the complementary type), plus some ordinary logic, in a random
+    insertion order of inputs and gates: no two gates have the same function, yet one output is the negation of
+    another one"""
+    used, ins = set(), []
+    for _ in range(rng.choice([3, 4, 4])):
+        l = gen.fresh_label(rng, used)
+        used.add(l)
+        ins.append(l)
+    cone, avail = [], list(ins)
+    for _ in range(rng.randint(2, 4)):
+        t = rng.choice([x for x in SUPPORTED if x != 'NOT'])
+        l = gen.fresh_label(rng, used)
+        used.add(l)
+        cone.append((l, t, rng.sample(avail, 2)))
+        avail.append(l)
+    top = cone[-1][0]
+    ren = {}
+    twin = []
+    for l, t, ops in cone:
+        nl = gen.fresh_label(rng, used)
+        used.add(nl)
+        ren[l] = nl
+        twin.append((nl, COMPLEMENT[t] if l == top else t, [ren.get(o, o) for o in ops]))
+    if rng.random() < 0.5:
+        # make the first cone improvable: a redundant re-statement of its top gate
+        l = gen.fresh_label(rng, used)
+        used.add(l)
+        cone.append((l, 'AND', [top, top]))
+        top = l
+    extra = []
+    for _ in range(rng.randint(0, 2)):
+        l = gen.fresh_label(rng, used)
+        used.add(l)
+        extra.append((l, rng.choice(['AND', 'OR', 'XOR']), rng.sample(avail, 2)))
+    blocks = [cone, twin, extra]
+    rng.shuffle(blocks)
+    rng.shuffle(ins)
+    order = [(i, 'INPUT', []) for i in ins] + [g for b in blocks for g in b]
+    users = {}
+    for l, t, ops in order:
+        for o in ops:
+            users.setdefault(o, []).append(l)
+    outs = [top, ren[cone[-1][0]] if cone[-1][0] in ren else twin[-1][0]] + [g[0] for g in extra]
+    outs[1] = twin[-1][0]
+    rng.shuffle(outs)
+    return {'inputs': ins, 'outputs': outs, 'gates': order, 'users': list(users.items()), 'blocks': []}
+
+
+def negated_output_cone_circuit(rng):
+    """L = op(a, b), F = g(L, c), u = h(L, d), N = g'(u, v-ish) arranged so that inside one cut over (L, c, d)
+    one output is the negation of another and has PRIVATE gates, while a sibling cut over the inputs contains those
+    private gates too; inputs, gates and outputs in a random insertion order (the order decides which cut is
+    processed first).  No two gates have the same function"""
+    used = set()
+
+    def new():
+        l = gen.fresh_label(rng, used)
+        used.add(l)
+        return l
+    a, b, c, d = new(), new(), new(), new()
+    L, F, u, N = new(), new(), new(), new()
+    t1 = rng.choice(['AND', 'OR', 'XOR', 'NAND'])
+    tf, tn = rng.choice([('XOR', 'NXOR'), ('NXOR', 'XOR')])
+    # F = L xor c ; u = (L xor c) ... with d mixed in and cancelled:  u = XOR(L, d), N = NXOR-ish(XOR(u, d), c)
+    w = new()
+    gates = {L: (t1, [a, b]), F: (tf, [L, c]), u: ('XOR', [L, d]), w: ('XOR', [u, d]), N: (tn, [w, c])}
+    extra = []
+    if rng.random() < 0.5:
+        e = new()
+        gates[e] = (rng.choice(['AND', 'OR']), [u, a])
+        extra.append(e)
+    ins = [a, b, c, d]
+    rng.shuffle(ins)
+    # any insertion order that respects "operands first" is a legal history; sample one
+    order, placed, pending = [], set(ins), dict(gates)
+    while pending:
+        ready = [l for l, (t, ops) in pending.items() if all(o in placed for o in ops)]
+        l = rng.choice(ready)
+        order.append((l,) + tuple(pending.pop(l)))
+        placed.add(l)
+    full = [(i, 'INPUT', []) for i in ins] + [(l, t, list(ops)) for l, t, ops in order]
+    users = {}
+    for l, t, ops in full:
+        for o in ops:
+            users.setdefault(o, []).append(l)
+    outs = [F, N] + extra
+    rng.shuffle(outs)
+    return {'inputs': ins, 'outputs': outs, 'gates': full, 'users': list(users.items()), 'blocks': []}
+
+
+_NEG_TEMPLATE = {'L': ('AND', ['a', 'b']), 't1': ('AND', ['c', 'd']), 't2': ('AND', ['c', 'L']), 'F': ('OR', ['t1', 't2']),
+                 'nc': ('NOT', ['c']), 'p': ('NOR', ['d', 'L']), 'N': ('OR', ['nc', 'p'])}
+# insertion orders in which the cut (L, c, d) - where N is the negation of the improvable F and loses its private
+# gates - is processed BEFORE the sibling cut (a, b, d) rooted in one of those private gates
+_NEG_ORDERS = [('cabd', ('L', 'nc', 't1', 't2', 'F', 'p', 'N')), ('cabd', ('nc', 'L', 't2', 't1', 'F', 'p', 'N')),
+               ('cadb', ('L', 'nc', 't1', 't2', 'F', 'p', 'N'))]
+
+
+def negated_output_template(rng):
+    """F = c & (d | L) in three gates (improvable), N = ~F with private gates nc, p, L = op(a, b); one of the known
+    critical insertion orders or a random legal one; random labels"""
+    used = set()
+    names = {}
+    for k in list('abcd') + list(_NEG_TEMPLATE):
+        names[k] = gen.fresh_label(rng, used)
+        used.add(names[k])
+    tmpl = dict(_NEG_TEMPLATE)
+    tmpl['L'] = (rng.choice(['AND', 'OR', 'XOR', 'NOR']), ['a', 'b'])
+    if rng.random() < 0.7:
+        ins, order = rng.choice(_NEG_ORDERS)
+        ins, order = list(ins), list(order)
+    else:
+        ins = list('abcd')
+        rng.shuffle(ins)
+        order, placed, pending = [], set(ins), dict(tmpl)
+        while pending:
+            ready = sorted(l for l, (t, ops) in pending.items() if all(o in placed for o in ops))
+            l = rng.choice(ready)
+            order.append(l)
+            pending.pop(l)
+            placed.add(l)
+    full = [(names[i], 'INPUT', []) for i in ins] + [(names[l], tmpl[l][0], [names[o] for o in tmpl[l][1]]) for l in order]
+    users = {}
+    for l, t, ops in full:
+        for o in ops:
+            users.setdefault(o, []).append(l)
+    outs = [names['F'], names['N']]
+    if rng.random() < 0.3:
+        outs.reverse()
+    return {'inputs': [names[i] for i in ins], 'outputs': outs, 'gates': full, 'users': list(users.items()),
+            'blocks': []}
+
+
 def absorption_circuit(rng):
     """gates that EQUAL one of their cut leaves on every assignment (absorption: AND(a, OR(a, b)),
     OR(a, AND(a, b)), XOR(XOR(a, b), b), NOT NOT a), also as outputs listed several times and next to ordinary
@@ -91,6 +230,11 @@ def absorption_circuit(rng):
     return {'inputs': ins, 'outputs': outs, 'gates': order, 'users': list(users.items()), 'blocks': []}
 
 
+# 'functionally equivalent gates' of the property = two gates with the SAME function (or a constant gate);
+# a gate and its complement are different functions
+COMPLEMENT_IS_EQUIVALENT = False
+
+
 def has_equivalent_gates(dump):
     """two gates (inputs included) with equal or complementary truth tables, or constant gates"""
     ins = dump['inputs']
@@ -103,7 +247,7 @@ def has_equivalent_gates(dump):
     for l, col in cols.items():
         k = tuple(col)
         nk = tuple(not x for x in col)
-        if k in seen or nk in seen or len(set(col)) == 1:
+        if k in seen or (COMPLEMENT_IS_EQUIVALENT and nk in seen) or len(set(col)) == 1:
             return True
         seen[k] = l
     return False
